@@ -84,7 +84,52 @@ def _args_loader(inputs, o, work=None):
     return [path, "--fix-crc"]
 
 
+def _val(inputs, name):
+    v = inputs.get(name)
+    tag, pay = 0, 0
+    if isinstance(v, dict):
+        tag = _num(v.get("tag"))
+        a = v.get("as")
+        if isinstance(a, dict):
+            for k in ("i64", "obj", "string", "array", "u8", "boolean"):
+                if k in a:
+                    try:
+                        pay = _num(a[k]) & 0xFFFFFFFFFFFFFFFF
+                    except Exception:
+                        pay = 0
+                    break
+    for k, x in inputs.items():
+        if k == name + ".tag":
+            tag = _num(x)
+        if k == name + ".as.i64":
+            pay = _num(x) & 0xFFFFFFFFFFFFFFFF
+    return tag, pay
+
+
+def _args_vmstep(inputs, o, work=None):
+    mode = {"h_c08": "c08", "h_c02": "c02"}.get(o["entry"], "safe")
+    op = str((o.get("defines") or {}).get("VERIF_OP", 0))
+    b = flat_array(inputs, "in_operand.b", 12)
+    if not b and isinstance(inputs.get("in_operand"), dict):
+        b = [_num(x) for x in inputs["in_operand"].get("b") or []]
+    b = (b + [0] * 12)[:12]
+    hx = "".join("%02x" % (x & 0xFF) for x in b[1:])
+    dfs = o.get("defines") or {}
+    ss = inputs.get("in_stack_size")
+    n = min(_num(ss) if ss is not None else _num(dfs.get("VERIF_STACK_SIZE", 0)), 3)
+    args = [mode, op, hx, str(n)]
+    for i in range(n - 1, -1, -1):       # bottom to top: v(n-1) .. v0
+        tag, pay = _val(inputs, "in_v%d" % i)
+        if ("in_v%d.tag" % i) not in inputs and not isinstance(inputs.get("in_v%d" % i), dict):
+            tag = {128: 1, 256: 4}.get(_num(dfs.get("VERIF_M%d" % i, 0)), tag)   # shape pinned by the registry
+        ln = _num(inputs.get("in_len%d" % i))
+        args += [str(tag), "%x" % pay, str(ln)]
+    return args
+
+
 REPLAYERS = {
+    "vmstep": {"args": _args_vmstep, "src": ["src/nanovm/vm.c", "src/nanovm/heap.c", "src/nanovm/value.c", "src/nanoisa/isa.c",
+                                             "src/nanoisa/nvm_format.c"], "timeout": 20},
     "loader": {"args": _args_loader, "src": ["src/nanoisa/nvm_format.c", "src/nanoisa/verifier.c", "src/nanoisa/isa.c"], "timeout": 20,
                "keep": ["cex.nvm"]},
     "isa": {"args": _args_isa, "src": []},
